@@ -59,6 +59,10 @@ def cases(tier, seed):
     # declared casts over a history: write, (re)declare the cast, write other data of another dtype
     for k in range(80 if tier == 'quick' else 2000):
         yield {'stratum': 'cast-history', 'index': k, 'kind': 'cast-history'}
+    # floats cast (as declared) to a type that cannot hold some of them: numpy leaves the result undefined -- it depends on
+    # the number of values converted at once and on the memory layout -- so there are no "declared cast" bits to return
+    for k in range(150 if tier == 'quick' else 3000):
+        yield {'stratum': 'float-cast-out-of-range', 'index': k, 'kind': 'float-cast'}
 
 
 def run_case(case):
@@ -211,6 +215,38 @@ def run_case(case):
             if sp['write'].get('perm_seed') is not None:
                 bump('c03-struct-permuted')
             bump('c03-struct-' + (sp['write'].get('struct_variant') or 'packed'))
+        elif case['kind'] == 'float-cast':
+            import numpy as np
+            sp, xi, src, dst, nbad = gen.float_cast_spec(r)
+            ops = sp['ops']
+            source = sp['write']['source']
+            n = ops[xi]['data']['shape'][0]
+            bump('c03-float-cast-out-of-range')
+            run = harness.execute(sp)
+            w = sp['write']
+            arr = run.arrays.get(xi)
+            win = arr[(w.get('from_idx') or 0):(arr.shape[0] if w.get('to_idx') is None else w['to_idx'])]
+            why = oracle.uncastable(win, dst)
+            evals += 1
+            tag = f"{np.dtype(src).name}->{dst}"
+            if why is not None:
+                bump('c03-uncastable-value-in-window')
+                sigs.append(f'uncastable:{tag}:{source}:n{min(n, 4)}')
+                if run.data is not None:
+                    vio.append({'prop': PROP, 'kind': 'uncastable-written', 'mech': f'cast-out-of-range-written:{tag}',
+                                'detail': f'{why}: the declared cast has no defined result for this value, yet the file was written '
+                                          f'(source {source}, {n} rows, input chunk {w.get("input_chunk_size")}, window '
+                                          f'{w.get("from_idx")}:{w.get("to_idx")}, layout {ops[xi]["data"]["layout"]})',
+                                'spec': sp})
+                else:
+                    bump('c03-uncastable-refused:' + run.wout[1])
+                return {'evals': evals, 'violations': vio, 'obs': obs, 'sigs': sorted(set(sigs)), 'sample': sample}
+            bump('c03-castable' + ('-bad-outside-window' if nbad and oracle.uncastable(arr, dst) else ''))
+            if run.data is None and 'cannot be cast' in run.wout[2]:
+                vio.append({'prop': PROP, 'kind': 'castable-refused', 'mech': f'castable-refused:{tag}',
+                            'detail': f'every value in the window has a defined cast, but the write was refused: {run.wout[2][:200]}',
+                            'spec': sp})
+                return {'evals': evals, 'violations': vio, 'obs': obs, 'sigs': sorted(set(sigs)), 'sample': sample}
         elif case['kind'] == 'int-cast':
             sp = gen.int_cast_spec(r, nframes=1)
             bump('c03-int-cast-out-of-range')
